@@ -43,6 +43,11 @@ const straceSet = "openat,creat,open,write,pwrite64,read,pread64,lseek,fsync,fda
 // Trace runs argv under strace and returns the parsed ops concerning root (and the marker file).
 // The child's exit code is returned too.  rawOut (optional) keeps the strace log.
 func Trace(argv []string, root, ackPath, rawOut string, env []string) ([]Op, int, error) {
+	return TraceFrom(argv, root, ackPath, rawOut, env, nil)
+}
+
+// TraceFrom: like Trace for a root that is not empty; existing = the paths (relative to root) present before the run.
+func TraceFrom(argv []string, root, ackPath, rawOut string, env []string, existing map[string]bool) ([]Op, int, error) {
 	logf := rawOut
 	if logf == "" {
 		f, err := os.CreateTemp("", "strace*.log")
@@ -68,7 +73,7 @@ func Trace(argv []string, root, ackPath, rawOut string, env []string) ([]Op, int
 			return nil, 0, fmt.Errorf("strace: %v: %s", err, outb.String())
 		}
 	}
-	ops, perr := ParseStrace(logf, root, ackPath)
+	ops, perr := ParseStrace(logf, root, ackPath, existing)
 	if perr != nil {
 		return nil, code, perr
 	}
@@ -142,7 +147,7 @@ type fdent struct {
 // ParseStrace turns a strace -f -xx log into ops.  fds are per process (threads share the table; the
 // traced children never fork another marketstore process), offsets are tracked through
 // openat/lseek/read/write.
-func ParseStrace(logf, root, ackPath string) ([]Op, error) {
+func ParseStrace(logf, root, ackPath string, existing map[string]bool) ([]Op, error) {
 	f, err := os.Open(logf)
 	if err != nil {
 		return nil, err
@@ -153,6 +158,9 @@ func ParseStrace(logf, root, ackPath string) ([]Op, error) {
 	sc.Buffer(make([]byte, 1<<20), 1<<30)
 	fds := map[int]*fdent{}
 	exists := map[string]bool{}
+	for k, v := range existing {
+		exists[k] = v
+	}
 	pending := map[string]string{} // pid -> "name(args" of an unfinished call
 	var ops []Op
 	rel := func(p string) (string, bool) {
